@@ -424,6 +424,11 @@ void gen_c10(Plan& p, bool thorough) {
       c.set("node", i ? "sse2" : "avx2");
       p.tasks[0].push_back(c);
     }
+  {
+    Case b;
+    b.set("op", "lowmcbulk").set("param", prim).set("surf", (int64_t)r.below(2)).set("node", pick_node(r)).setu("seed", r.next() >> 16).setu("count", thorough ? 300000 : 12000);
+    p.tasks[0].push_back(b);
+  }
   int nrand = thorough ? 400 : 120;
   for (int i = 0; i < nrand; i++) {
     Rng ro = rng_for(p.seed, {H("C10"), p.run, H("op"), (uint64_t)i});
@@ -468,6 +473,21 @@ void gen_c11(Plan& p, bool thorough) {
                 p.tasks[0].push_back(c);
               }
         }
+        if (pp && (8 * pp->ios - pp->n) > 0) {
+          // jointly: the same pattern in two or three fields (a validator that folds the fields must not let them cancel)
+          int k = 8 * pp->ios - pp->n, nf = which ? 3 : 2;
+          for (int fm = 3; fm < (1 << nf); fm++) {
+            if (__builtin_popcount(fm) < 2)
+              continue;
+            for (int v = 1; v < (1 << k); v++)
+              for (int surf = 0; surf < 2; surf++) {
+                Case c;
+                c.set("op", "import").set("pb", pb).set("param", pb).set("which", which ? "sk" : "pk").set("surf", surf).set("n", size).setu("kseed", r.next() >> 20);
+                c.set("padf", fm).set("padv", v).set("chk", "c11").set("kpat", "rand");
+                p.tasks[0].push_back(c);
+              }
+          }
+        }
         // foreign parameter byte through the per-parameter surface
         if (pp)
           for (int q = 1; q <= 12; q++)
@@ -497,8 +517,11 @@ void gen_c11(Plan& p, bool thorough) {
       c.set("n", ro.chance(2, 3) ? size + ro.below(3) : ro.below(size + 3));
       if (pp) {
         describe_key(c, ro, *pp);
-        if (ro.chance(1, 2) && (8 * pp->ios - pp->n) > 0)
+        if (ro.chance(1, 2) && (8 * pp->ios - pp->n) > 0) {
           c.set("padf", (int64_t)ro.below(8)).set("padv", (int64_t)ro.below(128));
+          if (ro.chance(1, 2)) // independent values per field, biased to values that cancel or complement each other
+            c.set("padv0", (int64_t)ro.below(128)).set("padv1", (int64_t)(ro.chance(1, 2) ? c.i("padv0") ^ ro.below(4) : ro.below(128))).set("padv2", (int64_t)(c.i("padv0") ^ c.i("padv1") ^ ro.below(2)));
+        }
       } else
         c.setu("kseed", ro.next() >> 20);
     }
